@@ -66,6 +66,15 @@ theorem C04_sorted (i : Input) (h : WF i = true) :
   have hn : (valuesT (tables i)).Nodup := ((tables_perm h).map _).nodup_iff.mpr f.ndVals
   exact (hs.and hn).imp (fun ⟨a, b⟩ => by omega)
 
+/-- the declaration ORDER of the constants is irrelevant: two WF declarations of the same type with the same constants
+    — in whatever order, however spread over specs, blocks and files — give the same tables (so nothing may depend on
+    which constant happens to be collected first or last) -/
+theorem C04_order_irrelevant (i j : Input) (hi : WF i = true) (hj : WF j = true) (hT : i.T = j.T) (hp : i.decl.Perm j.decl) :
+    tables i = tables j ∧ tablesOf i.T (tables i) = tablesOf j.T (tables j) := by
+  have h := specSorted_perm i.decl j.decl hp (WF.facts hi).ndVals
+  rw [tables_eq hi, tables_eq hj, h, hT]
+  exact ⟨rfl, rfl⟩
+
 /-- Values() is the specification's ascending list -/
 theorem C04_values (i : Input) (h : WF i = true) : valuesT (tables i) = specValues i.decl := by
   rw [tables_eq h]; rfl
